@@ -246,6 +246,11 @@ def main(argv=None):
             continue
         if any(fn.split("::")[-1] in m and fn.split("::")[0].split("/")[-1] in m for m in missing_fn_prefixes):
             continue
+        # pack option LOCK_OPTIONAL_FUNCTIONS (substrings of obligation ids): COMPLEMENTARY contracts that the pack only registers while
+        # the function has the code shape their invariants were written for (and the solver decides them); the function stays covered
+        # by other locked obligations of the pack (its bounded walker), so these may disappear after an edit
+        if any(k in oid for k in getattr(pack, "LOCK_OPTIONAL_FUNCTIONS", ())):
+            continue
         really_missing.append(oid)
     # A locked obligation that is not generated is a vacuity error of the harness (exit 3) only when the source it belongs to is
     # the source the lock was taken from.  When that file changed (functions renamed, split, merged), the contract no longer
